@@ -86,6 +86,8 @@ type Grp struct {
 	EnvNS      string
 	Hidden     bool
 	Ptr        bool // declared as pointer-to-struct field
+	NilPtr     bool // (inline pointer structs of the root / of tag-declared commands) left nil by the program: go-flags allocates it
+	NoOwn      bool // the struct has no option fields of its own, only nested groups
 	ByAddGroup bool // attached with Command.AddGroup instead of a group: tag
 	// Inline: a struct-typed (or pointer-to-struct) field WITHOUT a group tag: its option fields belong to the
 	// enclosing group (same section, same heading, same namespace) - the usual way of sharing common options
@@ -189,14 +191,17 @@ type Cmd struct {
 }
 
 type Decl struct {
-	Options  flags.Options
-	NsDelim  string
-	EnvDelim string
-	Root     *Cmd
-	Opts     []*Opt
-	Cmds     []*Cmd
-	Grps     []*Grp
-	nextID   int
+	nilPtrOK  bool   // (during Build) the structs being instantiated belong to the root value: nil inline pointers may stay nil
+	inLateNil bool   // (during Build) inside a struct that go-flags allocated: its contents are set up after the build
+	lateErr   string // (during Build) a nil inline pointer struct that go-flags did not allocate
+	Options   flags.Options
+	NsDelim   string
+	EnvDelim  string
+	Root      *Cmd
+	Opts      []*Opt
+	Cmds      []*Cmd
+	Grps      []*Grp
+	nextID    int
 	// CacheTypes: the model will not change any more; reuse the struct types across Build calls
 	CacheTypes bool
 }
@@ -546,6 +551,22 @@ func (d *Decl) instantiate(g *Grp, cmd *Cmd, sv reflect.Value, log *CallLog, lat
 			continue
 		}
 		f := sv.Field(sg.idx)
+		if sg.Ptr && sg.NilPtr && d.nilPtrOK {
+			if !late && !d.inLateNil {
+				continue // left nil until the parser has been built
+			}
+			if f.IsNil() {
+				if d.lateErr == "" {
+					d.lateErr = fmt.Sprintf("the nil pointer field %s (an untagged struct that declares options / groups) was not allocated and stored while the declaration was read: whatever is parsed into it is lost", sg.Field)
+				}
+				continue
+			}
+			was := d.inLateNil
+			d.inLateNil = true
+			d.instantiate(sg, nil, f.Elem(), log, false)
+			d.inLateNil = was
+			continue
+		}
 		if sg.Ptr {
 			if f.IsNil() {
 				// pointer groups are allocated by the program before the parser is built
@@ -737,7 +758,9 @@ func (d *Decl) Build() *Built {
 	rt := d.structType(root.G, root)
 	pv := reflect.New(rt)
 	b.RootPV = pv
+	d.nilPtrOK, d.lateErr = true, ""
 	d.instantiate(root.G, root, pv.Elem(), log, false)
+	d.nilPtrOK = false
 	p := flags.NewParser(pv.Interface(), d.Options)
 	p.Name = "app"
 	if d.NsDelim != "" {
@@ -756,7 +779,12 @@ func (d *Decl) Build() *Built {
 	root.FC = p.Command
 	d.attach(b, root, log)
 	// resolve pointer groups that go-flags allocated, and flags.Group handles
+	d.nilPtrOK = true
 	d.instantiate(root.G, root, pv.Elem(), log, true)
+	d.nilPtrOK = false
+	if d.lateErr != "" && b.Err == nil {
+		b.Err = fmt.Errorf("%s", d.lateErr)
+	}
 	d.applyProgAttrs(b)
 	// groups that the model registers late (history stages): attached last, in registration order
 	hasLate := false
@@ -1053,6 +1081,9 @@ func (d *Decl) Describe() interface{} {
 		}
 		if g.Ptr {
 			m["pointer"] = true
+		}
+		if g.NilPtr {
+			m["pointer"] = "nil until the parser is built (tag-declared structs only)"
 		}
 		var os []string
 		for _, o := range g.Opts {
